@@ -1,5 +1,8 @@
 import Driver.Util
 import Hv.Patch.Ops
+import Hv.Patch.Spec
+import Hv.Patch.PatchFields
+import Hv.Patch.RoundTrip
 
 /-! Driver for domain C13: runs the Lean model of `msgpackpatch` / `PatchFields` on the op
     lines produced by `harness/c13.go` (all byte strings travel as hex on the line).
@@ -118,7 +121,130 @@ def storedOf (s : String) : Option Stored :=
 def showStored : Stored → String
   | .absent => "absent" | .other => "other" | .bytes r => "b:" ++ hexOrDash r
 
-def step (cfg : Cfg) (mg : Magic) (_ : Unit) (line : String) : Unit × String :=
+/-- rewrite every NaN float leaf to the canonical quiet NaN (7fc00000 / 7ff8000000000000); the
+    same structural walk as `c13Scan` in harness/c13.go: it stops at the first malformed or
+    truncated item and leaves the rest as it is -/
+def canonNaN : Nat → Nat → Bytes → Bytes
+  | _, 0, b => b
+  | 0, _ + 1, b => b
+  | fuel + 1, n + 1, b =>
+    match b with
+    | [] => []
+    | c :: r =>
+      match shape c with
+      | .invalid => b
+      | .fixed k =>
+        if r.length < k then b else
+        let p := r.take k
+        let bits := beNat p
+        let p' :=
+          if c.toNat = 0xca ∧ bits / 2 ^ 23 % 256 = 255 ∧ bits % 2 ^ 23 ≠ 0 then [0x7f, 0xc0, 0, 0]
+          else if c.toNat = 0xcb ∧ f64IsNaN bits then [0x7f, 0xf8, 0, 0, 0, 0, 0, 0]
+          else p
+        c :: p' ++ canonNaN fuel n (r.drop k)
+      | .lenp k e =>
+        match readBE k r with
+        | .error _ => b
+        | .ok (m, r') =>
+          if r'.length < m + e then b
+          else c :: r.take k ++ r'.take (m + e) ++ canonNaN fuel n (r'.drop (m + e))
+      | .mapFix k => c :: canonNaN fuel (n + 2 * k) r
+      | .arrFix k => c :: canonNaN fuel (n + k) r
+      | .mapLen k =>
+        match readBE k r with
+        | .error _ => b
+        | .ok (m, r') => c :: r.take k ++ canonNaN fuel (n + 2 * m) r'
+      | .arrLen k =>
+        match readBE k r with
+        | .error _ => b
+        | .ok (m, r') => c :: r.take k ++ canonNaN fuel (n + m) r'
+
+/-- `b:HEX[@EXPNANOS]` | absent | other → treasure before the call -/
+def treasureOf (s : String) : Option Treasure :=
+  if s == "absent" then some Treasure.empty
+  else if s == "other" then some { Treasure.empty with content := .other }
+  else if s.startsWith "b:" then
+    match ((s.drop 2).toString).splitOn "@" with
+    | [h] => (unhex h).map fun raw => { Treasure.empty with content := .bytes raw }
+    | [h, e] =>
+      match unhex h, e.toInt? with
+      | some raw, some n => some { Treasure.empty with content := .bytes raw, exp := n }
+      | _, _ => none
+    | _ => none
+  else none
+
+def metaOf (s : String) : Option (Option PatchMeta) :=
+  if s == "-" then some none else
+  let step (acc : Option PatchMeta) (tok : String) : Option PatchMeta :=
+    match acc with
+    | none => none
+    | some m =>
+      if tok == "ua" then some { m with updAt := true }
+      else if tok == "ca" then some { m with crAt := true }
+      else if tok == "clr" then some { m with clearExp := true }
+      else if tok.startsWith "ub=" then (unhex (tok.drop 3).toString).map fun b => { m with updBy := b }
+      else if tok.startsWith "cb=" then (unhex (tok.drop 3).toString).map fun b => { m with crBy := b }
+      else if tok.startsWith "exp=" then ((tok.drop 4).toString.toInt?).map fun n => { m with setExp := some n }
+      else none
+  ((s.splitOn ",").foldl step (some ⟨false, [], false, [], none, false⟩)).map some
+
+/-- does the op list fail, in the model, at an op that the Spec applies to the decoded document? -/
+def opaqueFail (cfg : Cfg) : Node → List Op → Bool
+  | _, [] => false
+  | t, op :: rest =>
+    match stepOp cfg t op with
+    | .ok t' => opaqueFail cfg t' rest
+    | .error e => e == .type && (match Spec.refOp (norm t) op with | .ok _ => true | .error _ => false)
+
+/-- the outcome of this patch depends on the REMOVE_VAL fact: with the documented comparison
+    (containers too) the model answers differently — result or error -/
+def rmvalDepends (cfg : Cfg) (body : Bytes) (ops : List Op) (cond : Option Condition) : Bool :=
+  !cfg.rmvalCanon && ops.any (fun o => o.kind == .removeVal) &&
+    (applyWithCondition cfg body ops cond != applyWithCondition { cfg with rmvalCanon := true } body ops cond)
+
+def stepPf (pc : PfCfg) (line : String) : Unit × String :=
+  match line.splitOn " " with
+  | "pf" :: sh :: cr :: seedh :: mh :: ch :: opss =>
+    match treasureOf sh, unhex seedh, metaOf mh, parseCond ch, parseOps opss with
+    | some tr, some seed, some m, some cond, some ops =>
+      let r := patchFieldsT pc tr ops cond (cr == "1") seed m
+      let t := r.treasure
+      -- wf: does the parser accept what is stored behind the two prefix bytes
+      let w := match t.content with
+        | .bytes (_ :: _ :: body) => wf body
+        | _ => false
+      let echo := match r.newBody with
+        | some b => hexOrDash b
+        | none => "-"
+      let b01 := fun (b : Bool) => if b then "1" else "0"
+      let f1 := if (r.status == 0 || r.status == 1) && !w then "\t#F:C13-unvalidated-op-value" else ""
+      -- the code's status for this error class is not the documented one
+      let f3 :=
+        (match pfGate pc tr (cr == "1") seed with
+         | .ok (body, _) =>
+           (match applyWithCondition pc.cfg body ops cond with
+            | .error e => if pc.smap.of e != documentedMap.of e then "\t#F:C13-status-mapping" else ""
+            | .ok _ => "") ++
+           (if rmvalDepends pc.cfg body ops cond then "\t#F:C13-removeval-skips-containers" else "")
+         | .error _ => "")
+      let f2 :=
+        if r.status == pc.smap.type then
+          (match pfGate pc tr (cr == "1") seed with
+           | .ok (body, _) =>
+             (match applyWithCondition pc.cfg body ops cond, parse body with
+              | .error .type, .ok t =>
+                let condOk := match cond with
+                  | none => true
+                  | some c => (match evalCond pc.cfg t c with | .ok () => true | .error _ => false)
+                if condOk && opaqueFail pc.cfg t ops then "\t#F:C13-spliced-value-opaque" else ""
+              | _, _ => "")
+           | .error _ => "")
+        else ""
+      ((), s!"st={r.status} {showStored t.content} wf={b01 w} new={echo} exp={t.exp} mat={b01 t.modAt} mby={hexOrDash t.modBy} cat={b01 t.crAt} cby={hexOrDash t.crBy}{f1}{f2}{f3}")
+    | _, _, _, _, _ => ((), "bad-op")
+  | _ => ((), "bad-op")
+
+def step (cfg : Cfg) (pc : PfCfg) (_ : Unit) (line : String) : Unit × String :=
   match line.splitOn " " with
   | ["case", _] => ((), line)
   | ["parse", h] =>
@@ -128,43 +254,52 @@ def step (cfg : Cfg) (mg : Magic) (_ : Unit) (line : String) : Unit × String :=
       match parse b with
       | .error e => ((), s!"err {e}")
       | .ok t => ((), "ok " ++ showNode t)
-  | "ap" :: bh :: ch :: opss =>
+  | verb :: bh :: ch :: opss =>
+    if verb != "ap" && verb != "apn" then stepPf pc line else
     match unhex bh, parseCond ch, parseOps opss with
     | some body, some cond, some ops =>
       match applyWithCondition cfg body ops cond with
-      | .error e => ((), s!"err {e}")
+      | .error e =>
+        -- a TYPE_MISMATCH at an op the documented semantics (Spec) would apply: the op addresses into a
+        -- container value that an earlier op of the same patch spliced in as an opaque leaf
+        let fo :=
+          if e == .type then
+            (match parse body with
+             | .ok t =>
+               let condOk := match cond with
+                 | none => true
+                 | some c => (match evalCond cfg t c with | .ok () => true | .error _ => false)
+               if condOk && opaqueFail cfg t ops then "\t#F:C13-spliced-value-opaque" else ""
+             | .error _ => "")
+          else ""
+        let fr := if rmvalDepends cfg body ops cond then "\t#F:C13-removeval-skips-containers" else ""
+        ((), s!"err {e}{fo}{fr}")
       | .ok out =>
         let w := wf out
         let f1 := if w then "" else "\t#F:C13-unvalidated-op-value"
         let f2 := if nanMet cfg body cond then "\t#F:C13-nan-compares-equal" else ""
-        ((), s!"out {hexOrDash out} wf={if w then 1 else 0}{f1}{f2}")
+        -- the Spec's document differs from what the model stored (unrepaired REMOVE_VAL: containers skipped)
+        let f3 := if rmvalDepends cfg body ops cond then "\t#F:C13-removeval-skips-containers" else ""
+        -- `apn`: NaN payload bits are platform-defined; both sides print NaN leaves canonically
+        let shown := if verb == "apn" then canonNaN out.length 1 out else out
+        ((), s!"out {hexOrDash shown} wf={if w then 1 else 0}{f1}{f2}{f3}")
     | _, _, _ => ((), "bad-op")
-  | "pf" :: sh :: cr :: seedh :: ch :: opss =>
-    match storedOf sh, unhex seedh, parseCond ch, parseOps opss with
-    | some st, some seed, some cond, some ops =>
-      let (s, st') := patchFields cfg mg st ops cond (cr == "1") seed
-      -- wf: does the parser accept what is stored behind the two prefix bytes;
-      -- new: `PatchFieldsResult.NewMsgpack` (the unwrapped body, only on PATCHED / CREATED)
-      let w := match st' with
-        | .bytes (_ :: _ :: body) => wf body
-        | _ => false
-      let echo := match s, st' with
-        | .patched, .bytes (_ :: _ :: body) => hexOrDash body
-        | .created, .bytes (_ :: _ :: body) => hexOrDash body
-        | _, _ => "-"
-      let f1 := if (s == .patched || s == .created) && !w then "\t#F:C13-unvalidated-op-value" else ""
-      ((), s!"st={s.code} {showStored st'} wf={if w then 1 else 0} new={echo}{f1}")
-    | _, _, _, _ => ((), "bad-op")
   | _ => ((), "bad-op")
 
 def run (args : List String) : IO UInt32 := do
   let kv := parseArgs args
   let nan : NanRule := if arg kv "nanCompare" == "neverEqual" then .neverEqual else .equal
-  let cfg : Cfg := { validatesValues := arg kv "validatesValues" == "yes", nan := nan }
+  let cfg : Cfg := { validatesValues := arg kv "validatesValues" == "yes", nan := nan,
+                     rmvalCanon := arg kv "removeValCompare" == "canonical" }
   let mg : Magic := match unhex (arg kv "magic") with
     | some [a, b] => ⟨a, b⟩
     | _ => ⟨0, 0⟩
-  lineLoop (step cfg mg) ()
+  let nums := ((arg kv "smap").splitOn ",").filterMap (·.toNat?)
+  let smap : StatusMap := match nums with
+    | [a, b, c, d, e, f] => ⟨a, b, c, d, e, f⟩
+    | _ => ⟨99, 99, 99, 99, 99, 99⟩
+  let seed := (unhex (arg kv "seedDefault")).getD []
+  lineLoop (step cfg ⟨cfg, mg, smap, seed⟩) ()
   return 0
 
 end Driver.C13
